@@ -36,6 +36,16 @@ partial def runOps {C : Nat} (N K : Nat) (simd : String → List Nat → Striped
           if backend == "generic" then Striped.stripeGeneric N syms old else simd backend syms old
         runOps N K simd rest'' st' (observe K st' :: acc)
       | _ => ["bad-case"]
+    | "CL" =>
+      -- `clone()`: a logical copy
+      runOps N K simd rest st (observe K st :: acc)
+    | "CF" =>
+      -- `dst.clone_from(&st)`: whatever `dst` held, it is now a logical copy of `st`
+      match rest with
+      | n :: rest' =>
+        let (_, rest'') := takeNats rest' (parseNat! n)
+        runOps N K simd (rest''.drop 1) st (observe K st :: acc)
+      | _ => ["bad-case"]
     | "W" =>
       match rest with
       | m :: rest' =>
